@@ -82,6 +82,13 @@ class Backend:
             return None
         return (r.status.value, r.runner_id, ts_us(r.timestamp))
 
+    def listed(self, inv_id: str) -> list[str]:
+        """the statuses under which the status-filtered listing of the orchestrator shows the invocation (it is observable through the
+        orchestrator there too): exactly its recorded status"""
+        from pynenc.invocation.status import InvocationStatus as S
+
+        return [st.value for st in S if inv_id in self.o.get_invocation_ids_paginated(statuses=[st], limit=1000)]
+
     def set(self, inv_id: str, req, rid) -> str:
         try:
             rc = rctx(rid)
@@ -165,6 +172,13 @@ def run(ctx: Ctx) -> None:
                             before = b.read(inv)
                             out = b.set(inv, req, rid)
                             after = b.read(inv)
+                            if after is not None and (len(res) % 7 == 0 or out != "ok"):
+                                ls = b.listed(inv)
+                                if ls != [after[0]]:
+                                    ctx.report(f"status-listing-disagrees-with-record[{b.label}]:{'refused' if out != 'ok' else 'accepted'}",
+                                               f"[{b.label}] after the {'refused' if out != 'ok' else 'accepted'} request {cur.value}/{owner} -> {req.value} by {rid!r} the record says "
+                                               f"{after[0]} but the status-filtered listing shows the invocation under {ls}",
+                                               {"kind": "public-step", "backend": b.kind, "nested": b.nested, "cur": cur.value, "owner": owner, "req": req.value, "rid": rid})
                             res.append((cur, owner, req, rid, out, before, after))
                             mlines += [f"orch.inject {tok(inv)} {cur.value} {tok(owner)} {t0}",
                                        f"orch.set {tok(inv)} {req.value} {tok(rid)} {clock.us}",
